@@ -24,6 +24,12 @@ import os
 import sys
 from fractions import Fraction
 
+# functions of the `operator` module: binary -> ast operator, unary -> ast operator
+OP_BIN = {'add': ast.Add, 'sub': ast.Sub, 'mul': ast.Mult, 'truediv': ast.Div,
+          'matmul': ast.MatMult, 'pow': ast.Pow, 'floordiv': ast.FloorDiv, 'mod': ast.Mod}
+OP_UN = {'neg': ast.USub, 'pos': ast.UAdd, 'inv': ast.Invert, 'invert': ast.Invert,
+         'not_': ast.Not}
+OP_CMP = {'lt': ast.Lt, 'le': ast.LtE, 'gt': ast.Gt, 'ge': ast.GtE, 'eq': ast.Eq, 'ne': ast.NotEq}
 MATH_NAMES = ('sqrt', 'cos', 'sin', 'tan', 'atan2', 'hypot', 'radians', 'pi')
 SIZES = {'Vec2': 2, 'Vec3': 3, 'Vec4': 4, 'Mat3': 9, 'Mat4': 16}
 VTYPE = {2: 'V2', 3: 'V3', 4: 'V4', 9: 'V9', 16: 'V16'}
@@ -161,6 +167,11 @@ class Bound:
     """obj.method (not yet called)"""
     def __init__(self, recv, cls, name):
         self.recv, self.cls, self.name = recv, cls, name
+
+
+class Lambda:
+    def __init__(self, node, env):
+        self.node, self.env = node, env
 
 
 class Builtin:
@@ -534,6 +545,23 @@ class Run:
             raise Unsupported('operator %s on numbers' % type(op).__name__)
         return Sym((tag, expr_of(a), expr_of(b)))
 
+    def unop(self, op, v):
+        if isinstance(op, ast.Not):
+            t = self.truth(v)
+            return (not t) if isinstance(t, bool) else SymB(('negb', t.e))
+        if isinstance(v, Tup):
+            d = {ast.USub: '__neg__', ast.UAdd: '__pos__', ast.Invert: '__invert__'}[type(op)]
+            if v.cls in SIZES:
+                return self.call_method(v.cls, d, v, [])
+            raise Unsupported('unary operator on a tuple')
+        if isinstance(op, ast.USub) and is_scalar(v):
+            if isinstance(v, Num):
+                return Num(-v.v, v.isint)
+            return Sym(('opp', expr_of(v)))
+        if isinstance(op, ast.UAdd) and is_scalar(v):
+            return v
+        raise Unsupported('unary %s on %s' % (type(op).__name__, type(v).__name__))
+
     def compare(self, op, a, b):
         if isinstance(op, (ast.Is, ast.IsNot)):
             pos = isinstance(op, ast.Is)
@@ -594,8 +622,15 @@ class Run:
                 return ClsRef(n.id)
             if n.id in self.mod.funcs:
                 return Builtin('func:' + n.id)
-            if self.mod.aliases.get(n.id) == ('from', 'operator', 'mul'):
-                return Builtin('op.mul')
+            al = self.mod.aliases.get(n.id)
+            if al and al[0] == 'from' and al[1] == 'operator':
+                if al[2] in OP_BIN or al[2] in OP_UN or al[2] in OP_CMP or al[2] == 'abs':
+                    return Builtin('op.' + al[2])
+                raise Unsupported('operator.%s' % al[2])
+            if al == ('from', 'functools', 'reduce'):
+                return Builtin('reduce')
+            if al and al[0] == 'from' and al[1] == 'math' and al[2] in MATH_NAMES:
+                return Sym(('pi',)) if al[2] == 'pi' else Builtin('math.' + al[2])
             if n.id in ('len', 'tuple', 'list', 'sum', 'map', 'zip', 'range', 'enumerate',
                         'abs', 'min', 'max', 'type', 'isinstance', 'reversed', 'all',
                         'any', 'super', 'float', 'round'):
@@ -604,23 +639,7 @@ class Run:
         if isinstance(n, ast.BinOp):
             return self.binop(n.op, self.ev(n.left, env, cls), self.ev(n.right, env, cls))
         if isinstance(n, ast.UnaryOp):
-            v = self.ev(n.operand, env, cls)
-            if isinstance(n.op, ast.Not):
-                t = self.truth(v)
-                return (not t) if isinstance(t, bool) else SymB(('negb', t.e))
-            if isinstance(v, Tup):
-                d = {ast.USub: '__neg__', ast.UAdd: '__pos__',
-                     ast.Invert: '__invert__'}[type(n.op)]
-                if v.cls in SIZES:
-                    return self.call_method(v.cls, d, v, [])
-                raise Unsupported('unary operator on a tuple')
-            if isinstance(n.op, ast.USub):
-                if isinstance(v, Num):
-                    return Num(-v.v, v.isint)
-                return Sym(('opp', expr_of(v)))
-            if isinstance(n.op, ast.UAdd) and is_scalar(v):
-                return v
-            raise Unsupported('unary %s' % type(n.op).__name__)
+            return self.unop(n.op, self.ev(n.operand, env, cls))
         if isinstance(n, ast.BoolOp):
             # Python semantics while everything is concrete: short circuit,
             # the deciding operand is the value
@@ -689,6 +708,17 @@ class Run:
             return v.items[self.index(self.ev(n.slice, env, cls), len(v.items))]
         if isinstance(n, ast.Attribute):
             base = ast.unparse(n)
+            if isinstance(n.value, ast.Name) and n.value.id not in env:
+                al = self.mod.aliases.get(n.value.id)
+                if al == ('module', 'operator'):
+                    if n.attr in OP_BIN or n.attr in OP_UN or n.attr in OP_CMP or n.attr == 'abs':
+                        return Builtin('op.' + n.attr)
+                    raise Unsupported('operator.%s' % n.attr)
+                if al == ('module', 'functools') and n.attr == 'reduce':
+                    return Builtin('reduce')
+                if al == ('module', 'math') and n.attr in MATH_NAMES and \
+                        n.value.id not in ('_math', 'math'):
+                    return Sym(('pi',)) if n.attr == 'pi' else Builtin('math.' + n.attr)
             if base in ('_math.' + x for x in MATH_NAMES) or base in (
                     'math.' + x for x in MATH_NAMES):
                 root = base.split('.')[0]
@@ -712,6 +742,8 @@ class Run:
                 if n.attr in self.mod.classes[v.name]:
                     return Bound(None, v.name, n.attr)
             raise Unsupported('attribute %s' % ast.unparse(n)[:40])
+        if isinstance(n, ast.Lambda):
+            return Lambda(n, env)
         if isinstance(n, ast.Call):
             return self.call(n, env, cls)
         raise Unsupported('expression %s `%s`' % (type(n).__name__, ast.unparse(n)[:40]))
@@ -781,11 +813,48 @@ class Run:
                     raise Unsupported('receiver of %s.%s' % (f.cls, f.name))
                 return self.call_method(f.cls, f.name, args[0], args[1:], kwargs)
             return self.call_method(f.cls, f.name, f.recv, args, kwargs)
+        if isinstance(f, Lambda):
+            if kwargs:
+                raise Unsupported('keyword arguments to a lambda')
+            return self.call_lambda(f, args, cls)
         if not isinstance(f, Builtin):
             raise Unsupported('call of `%s`' % ast.unparse(n.func)[:40])
         if kwargs:
             raise Unsupported('keyword arguments to %s' % f.name)
         return self.builtin(f.name, args, cls)
+
+    def apply(self, f, args, cls):
+        """call a function value (map, reduce)"""
+        if isinstance(f, Builtin):
+            return self.builtin(f.name, args, cls)
+        if isinstance(f, Bound) and f.recv is None and args:
+            k = self.mod.kind(f.cls, f.name)
+            if k in ('staticmethod', 'classmethod'):
+                return self.call_method(f.cls, f.name, None, args)
+            return self.call_method(f.cls, f.name, args[0], args[1:])
+        if isinstance(f, Bound) and f.recv is not None and f.cls != 'list':
+            return self.call_method(f.cls, f.name, f.recv, args)
+        if isinstance(f, ClsRef):
+            return self.construct(f.name, args, {})
+        if isinstance(f, Lambda):
+            return self.call_lambda(f, args, cls)
+        raise Unsupported('call of this kind of function value')
+
+    def call_lambda(self, f, args, cls):
+        a = f.node.args
+        if a.posonlyargs or a.kwonlyargs or a.kwarg or a.vararg or a.defaults:
+            raise Unsupported('lambda parameters')
+        names = [x.arg for x in a.args]
+        if len(names) != len(args):
+            raise Unsupported('lambda arity')
+        self.depth += 1
+        if self.depth > 40:
+            raise Unsupported('call depth')
+        env = dict(f.env)
+        env.update(zip(names, args))
+        r = self.ev(f.node.body, env, cls)
+        self.depth -= 1
+        return r
 
     def builtin(self, name, args, cls):
         if name.startswith('func:'):
@@ -810,8 +879,27 @@ class Run:
                 sq = self.binop(ast.Mult(), a, a)
                 acc = sq if acc is None else self.binop(ast.Add(), acc, sq)
             return Sym(('sqrt', expr_of(acc)))
-        if name == 'op.mul' and len(args) == 2:
-            return self.binop(ast.Mult(), args[0], args[1])
+        if name.startswith('op.'):
+            o = name[3:]
+            if o in OP_BIN and len(args) == 2:
+                return self.binop(OP_BIN[o](), args[0], args[1])
+            if o in OP_UN and len(args) == 1:
+                return self.unop(OP_UN[o](), args[0])
+            if o in OP_CMP and len(args) == 2:
+                return self.compare(OP_CMP[o](), args[0], args[1])
+            if o == 'abs' and len(args) == 1:
+                return self.builtin('abs', args, cls)
+            raise Unsupported('operator.%s with %d argument(s)' % (o, len(args)))
+        if name == 'reduce' and 2 <= len(args) <= 3:
+            items = self.iterate(args[1])
+            if len(args) == 3:
+                items = [args[2]] + items
+            if not items:
+                raise Unsupported('reduce of an empty sequence')
+            acc = items[0]
+            for x in items[1:]:
+                acc = self.apply(args[0], [acc, x], cls)
+            return acc
         if name == 'len' and len(args) == 1 and isinstance(args[0], Tup):
             return Num(len(args[0].items), True)
         if name in ('tuple', 'list') and len(args) <= 1:
@@ -834,12 +922,7 @@ class Run:
             f = args[0]
             out = []
             for r in zip(*cols):
-                if isinstance(f, Builtin):
-                    out.append(self.builtin(f.name, list(r), cls))
-                elif isinstance(f, Bound) and f.recv is None:
-                    out.append(self.call_method(f.cls, f.name, r[0], list(r[1:])))
-                else:
-                    raise Unsupported('map over this callable')
+                out.append(self.apply(f, list(r), cls))
             return Tup('list', out)
         if name == 'sum' and 1 <= len(args) <= 2:
             acc = args[1] if len(args) == 2 else Num(0, True)
